@@ -1,5 +1,6 @@
 import PytezosModel.Proofs.InterpBytes
 import PytezosModel.Proofs.InterpPack
+import PytezosModel.Proofs.InterpUnpack
 /-! Phase C — contracts and operations: Python's text operations on address texts (`partition('%')`, `_split`,
 `from_value`) against the reference's reading of an address text (`addrOf`, `epOf`, `Spec.normAddr`), and the mirrors
 of ADDRESS / IMPLICIT_ACCOUNT / CONTRACT / SET_DELEGATE / EMIT / TRANSFER_TOKENS against their rules. -/
@@ -73,5 +74,6 @@ theorem execUn_eq (env : Env) (i : Instr) (a : Val) (h : Spec.unV env i a ≠ .s
   · exact execSetDelegate_eq env a h
   · exact execEmit_eq env _ _ a
   · exact execPack_eq a h
+  · exact execUnpack_eq env _ a h
 
 end Interp
